@@ -473,7 +473,18 @@ fn body_for(mime: &str, inst: &Value, rq: &mut Req) {
 /// the request a client derives from one documented operation: `{p}` := 1, required query parameters and the request
 /// body instantiated from their schemas, credentials for every security scheme the operation names
 fn request_from_doc(doc: &Value, tmpl: &str, method: &str, op: &Value) -> Req {
-    let mut path: String = tmpl.split('/').map(|sg| if sg.starts_with('{') && sg.ends_with('}') { "1" } else { sg }).collect::<Vec<_>>().join("/");
+    // a value of the documented type for every `{p}`: a number where the document says integer / number, a text that is no number otherwise
+    // (a document that puts the handler's types on the wrong params sends a text where the handler parses a number)
+    // (a template may name two params alike, `/{y}/{y}`: the k-th of them is the k-th path parameter of that name)
+    let mut seen: Vec<String> = vec![];
+    let mut path_value = |name: &str| -> &'static str {
+        let k = seen.iter().filter(|n| n.as_str() == name).count(); seen.push(name.to_string());
+        let same: Vec<&Value> = arr(&op["parameters"]).iter().filter(|p| s(&p["in"]) == "path" && s(&p["name"]) == name).collect();
+        let ty = same.get(k).or(same.first()).map(|p| { let sc = &p["schema"];
+            let sc = if let Some(r) = sc["$ref"].as_str() { r.strip_prefix("#/").and_then(|q| doc.pointer(&format!("/{q}"))).unwrap_or(sc) } else { sc };
+            s(&sc["type"]).to_string() }).unwrap_or_default();
+        if ty == "integer" || ty == "number" { "1" } else { "x1y" } };
+    let mut path: String = tmpl.split('/').map(|sg| if sg.starts_with('{') && sg.ends_with('}') { path_value(&sg[1..sg.len() - 1]) } else { sg }).collect::<Vec<_>>().join("/");
     if path.is_empty() { path.push('/') }
     let mut rq = Req { method: method.to_uppercase(), path, headers: vec![], body: vec![] };
     let q: Vec<String> = arr(&op["parameters"]).iter().filter(|p| s(&p["in"]) == "query" && p["required"].as_bool().unwrap_or(false))
